@@ -495,6 +495,13 @@ func (x *Exec) doGo(st *State, i *ssa.Go) {
 	x.fireHooks(st, i, "go", true, args, nil)
 }
 
+func (x *Exec) calleeKey(callee *ssa.Function) string {
+	if callee != nil && callee.Pkg != nil && x.P.Verified[callee.Pkg.Pkg.Path()] {
+		return x.P.ShortName(callee)
+	}
+	return ""
+}
+
 // calleeEnv builds the evaluation environment of a callee's contract at a call site.
 func (x *Exec) calleeEnv(st *State, callee *ssa.Function, args []SymVal, res []SymVal) *Env {
 	env := &Env{x: x, st: st, old: st, binds: map[string]Bound{}, pkg: x.pkgPath()}
@@ -505,6 +512,16 @@ func (x *Exec) calleeEnv(st *State, callee *ssa.Function, args []SymVal, res []S
 		for k, p := range callee.Params {
 			if k < len(args) {
 				env.binds[p.Name()] = Bound{V: args[k], T: p.Type()}
+			}
+		}
+		// renamed parameters: the contract's names (baseline) are bound to the same arguments
+		if bf := loadBaseline().Funcs[x.calleeKey(callee)]; bf != nil && len(bf.Params) == len(callee.Params) {
+			for k, old := range bf.Params {
+				if _, taken := env.binds[old]; !taken && k < len(args) {
+					if p := x.W.paramAlias(callee, old); p == callee.Params[k] {
+						env.binds[old] = Bound{V: args[k], T: p.Type()}
+					}
+				}
 			}
 		}
 		if res != nil {
